@@ -175,6 +175,10 @@ def network_case(draw):
     if draw(st.booleans()):
         e = draw(netgen.variable_gain_entry('RB', band=(192.2e12, 196.125e12), design=True))
         lib.append(e)
+    # and one whose band ends below the top of the design band (starts below its bottom)
+    if draw(st.booleans()):
+        e = draw(netgen.variable_gain_entry('SB', band=(191.0e12, 195.2e12), design=True))
+        lib.append(e)
     eq = draw(netgen.equipment(edfa=lib))
     chain_kw = {'fiber_kw': {'lumped': False, 'per_freq_loss': True, 'loss': (0.17, 0.32)}}
     topo, truth = draw(netgen.topology(eq, n=(2, 4), extra_max=2, chain_kw=chain_kw))
